@@ -42,7 +42,10 @@ func gorillaParamsExtractor(r *http.Request) map[string]string {
 	params := map[string]string{}
 	title := cases.Title(language.Und)
 	for key, value := range gorilla.Vars(r) {
-		params[title.String(key)] = value
+		if key == "" {
+			continue
+		}
+		params[title.String(key[:1])+key[1:]] = value
 	}
 	return params
 }
